@@ -90,7 +90,12 @@ def generate(rng, flavour: str, n_calls=None) -> dict:
             # the console state drifts between calls (mode for AT5 limits, timers, sensors, turbo support)
             r = rng.random()
             if r < 0.4:
-                tl.append({"at": t, "op": "console.set", "entity": ["ac", rng.choice(acs)], "fields": {"mode": rng.choice(["auto", "heat", "dry", "fan", "cool", "auto_heat", "auto_cool"])}})
+                f = {"mode": rng.choice(["auto", "heat", "dry", "fan", "cool", "auto_heat", "auto_cool"])}
+                if rng.random() < 0.35:
+                    # the mode changes while the unit reports an error (or the error comes and goes with it): the limits still
+                    # follow the mode (the client's question about the error text is over long before the next call)
+                    f["error"] = rng.choice([0, 5, 0x22, 0x1234])
+                tl.append({"at": t, "op": "console.set", "entity": ["ac", rng.choice(acs)], "fields": f})
             elif r < 0.7:
                 tl.append({"at": t, "op": "console.set", "entity": ["timer", rng.choice(acs)], "fields": {rng.choice(["on", "off"]): G.timer(rng)}, "only": False})
             elif zones:
